@@ -224,7 +224,7 @@ func c20run(c *Ctx) {
 	c.Info("window_half_width", W)
 	c.Info("parser_max_symbols", maxLen)
 	// ---- (a) formatter windows
-	centers := []int64{0, 1e3, 1e6, 1e9, 60e9, 3600e9, 86400e9, math.MinInt64, math.MaxInt64, -1e9, -86400e9, 10 * 86400e9, 100 * 86400e9}
+	centers := []int64{0, 1e3, 1e6, 1e9, 60e9, 3600e9, 86400e9, math.MinInt64, math.MaxInt64, -1e9, -86400e9, 10 * 86400e9, 100 * 86400e9, 105 * 86400e9, 1 << 53, -(1 << 53), 1000 * 86400e9, 36525 * 86400e9, 106751 * 86400e9, -106751 * 86400e9}
 	distinct := map[string]struct{}{}
 	for ci, ctr := range centers {
 		lo, hi := ctr-W, ctr+W
@@ -261,9 +261,52 @@ func c20run(c *Ctx) {
 			c.Sample(map[string]any{"kind": "format-window", "center": ctr, "from": lo, "to": hi, "example": slog.VerifSmartDurationStringEx(time.Duration(ctr+12345), false)})
 		}
 	}
+	// ---- (a1b) every whole-day and whole-hour boundary of the range, both signs, a few ns to each side
+	dayW, hourW, minW := int64(64), int64(2), int64(-1)
+	if c.Thorough() {
+		dayW, hourW, minW = 2048, 16, 1
+	}
+	sweep := func(unit int64, w int64, label string) {
+		if w < 0 {
+			return
+		}
+		maxN := math.MaxInt64 / unit
+		per := maxN/int64(c.NShards) + 1
+		from, to := per*int64(c.Shard)+1, per*int64(c.Shard+1)
+		if to > maxN {
+			to = maxN
+		}
+		for N := from; N <= to; N++ {
+			base := N * unit
+			for d := -w; d <= w; d++ {
+				v := base + d
+				if v < base && d > 0 { // overflow
+					break
+				}
+				for _, fr := range []bool{false, true} {
+					c.Count("evaluations", 2)
+					c.Count("formatter_boundary_values_"+label, 2)
+					if vi := c20evalFormat(v, fr); vi != nil {
+						c.Violate(vi)
+					}
+					if vi := c20evalFormat(-v, fr); vi != nil {
+						c.Violate(vi)
+					}
+				}
+			}
+			if (N&0xfff == 0 || c.stop) && c.Expired() {
+				c.Flag("exhaustive", false)
+				return
+			}
+		}
+	}
+	sweep(86400e9, dayW, "day")
+	sweep(3600e9, hourW, "hour")
+	sweep(60e9, minW, "minute")
+	c.Info("boundary_half_widths_day_hour_minute", fmt.Sprint(dayW, hourW, minW))
 	// ---- (a2) component product
 	n := 0
-	for _, days := range []int64{0, 1, 9, 10, 99, 106751} {
+	for _, days := range []int64{0, 1, 9, 10, 99, 104, 105, 1000, 50000, 106751} {
 		for _, hours := range []int64{0, 1, 9, 10, 23} {
 			for _, mins := range []int64{0, 1, 9, 10, 59} {
 				for _, secs := range []int64{0, 1, 9, 10, 59} {
